@@ -600,6 +600,29 @@ def silence_library():
     sys.stdout = open(os.devnull, "w")
 
 
+def preimport_library():
+    """Import every library module (and Hypothesis) in the parent before any worker is forked.  Hypothesis harvests
+    constants from the source of all *local* modules in sys.modules and mixes them into its draws; with lazy imports the
+    pool of a forked worker would depend on which shard it ran first, i.e. on pool scheduling.  Importing everything up
+    front makes each run a pure function of (tree, VERIF_SEED)."""
+    import importlib
+    import pkgutil
+
+    import okdmr.dmrlib
+
+    skip = ("okdmr.dmrlib.tools",)
+    for m in pkgutil.walk_packages(okdmr.dmrlib.__path__, "okdmr.dmrlib."):
+        if m.name.startswith(skip):
+            continue
+        try:
+            importlib.import_module(m.name)
+        except Exception:
+            pass
+    import hypothesis.stateful  # noqa: F401
+    import hypothesis.strategies  # noqa: F401
+    import hypothesis.extra  # noqa: F401
+
+
 def assert_library_location():
     import okdmr.dmrlib
 
